@@ -71,6 +71,19 @@ _X.declare("pinf")
 _X.declare("ninf")
 XIntS = _X.create()
 XINT = Ty("XInt", XIntS)
+# vertex names of the bipartite projection: "N" + str(i) / "E" + str(i) (ASSUMED facts about Python strings: str(i) is injective, consists of
+# digits and '-' only, so the two families are disjoint and only the E-names contain the letter E), and the objects they stand for
+_VN = z3.Datatype("VName")
+_VN.declare("vN", ("vn_idx", I))
+_VN.declare("vE", ("ve_idx", I))
+VNameS = _VN.create()
+VNAME = Ty("VName", VNameS)
+_VO = z3.Datatype("VObj")
+_VO.declare("oNode", ("o_node", I))
+_VO.declare("oEdge", ("o_edge", TupS))
+VObjS = _VO.create()
+VOBJ = Ty("VObj", VObjS)
+STRINT = Ty("StrOfInt", I)          # str(i) for an integer i (only as the right operand of "N" + ... / "E" + ...)
 NONE = Ty("None", None)
 OPAQUE = Ty("Opaque", None)       # result of a call the contract declares opaque (numerics outside the subset): only passed on or compared
 BOUND = Ty("BoundMethod", None)   # `f = obj.method` (a local alias of a method of a local container or object); SV carries .obj (name) and .attr
@@ -198,7 +211,7 @@ def parse_ty(s, aliases=None):
     if s in aliases:
         return parse_ty(aliases[s], aliases) if isinstance(aliases[s], str) else aliases[s]
     base = {"Int": INT, "Node": INT, "Bool": BOOL, "Real": REAL, "Tup": TUP, "NodeSeq": TUP, "Meta": META,
-            "Layer": LAYER, "Str": STR, "Field": FIELD, "Val": VAL, "None": NONE, "XInt": XINT}
+            "Layer": LAYER, "Str": STR, "Field": FIELD, "Val": VAL, "None": NONE, "XInt": XINT, "VName": VNAME, "VObj": VOBJ}
     if s in base:
         return base[s]
     head, rest = s.split("[", 1)
